@@ -58,7 +58,9 @@ fn main() {
             };
             let engine = doc.get("engine").and_then(|v| v.str()).unwrap_or("").to_string();
             let property = doc.get("property").and_then(|v| v.str()).unwrap_or("?").to_string();
-            runner::with_watchdog(
+            let path2 = path.clone();
+            let property2 = property.clone();
+            let code = runner::with_watchdog(
                 || match engine.as_str() {
                     "cronsim" => cronsim::replay(&doc),
                     "c16" => c16::replay(&doc),
@@ -71,9 +73,13 @@ fn main() {
                 },
                 move || {
                     println!("replay: a call into astrolabe did not return within the watchdog limit (hang reproduced)");
-                    println!("VIOLATION property={} replay=(replayed)", property);
+                    println!("VIOLATION property={} replay={}", property, path2);
                 },
-            )
+            );
+            if code == 1 {
+                println!("VIOLATION property={} replay={}", property2, path);
+            }
+            code
         }
         "selftest" => match args.get(2).map(|s| s.as_str()) {
             Some("oracle") => {
